@@ -1,0 +1,150 @@
+package vm_test
+
+import (
+	"testing"
+
+	"github.com/elk-language/elk/value"
+)
+
+// Closures capture the variable instance of the loop iteration that created them,
+// whatever way control leaves the iteration.
+func TestVMSource_ClosureLoopScopes(t *testing.T) {
+	tests := sourceTestTable{
+		"loop variable of for in over a list": {
+			source: `
+				var closures: List[||: void] = []
+				for i in [1, 2, 3]
+					closures << -> println i
+				end
+				for c in closures then c.()
+				nil
+			`,
+			wantStdout:   "1\n2\n3\n",
+			wantStackTop: value.Nil,
+		},
+		"body local of for in over a list": {
+			source: `
+				var closures: List[||: void] = []
+				for i in [1, 2, 3]
+					j := i * 10
+					closures << -> println j
+				end
+				for c in closures then c.()
+				nil
+			`,
+			wantStdout:   "10\n20\n30\n",
+			wantStackTop: value.Nil,
+		},
+		"modifier for in over a list": {
+			source: `
+				var closures: List[||: void] = []
+				(closures << -> println i) for i in [7, 8]
+				for c in closures then c.()
+				nil
+			`,
+			wantStdout:   "7\n8\n",
+			wantStackTop: value.Nil,
+		},
+		"continue after capture in while": {
+			source: `
+				var closures: List[||: void] = []
+				i := 0
+				while i < 3
+					i++
+					j := i
+					closures << -> println j
+					continue if i == 1
+					j += 100
+				end
+				for c in closures then c.()
+				nil
+			`,
+			wantStdout:   "1\n102\n103\n",
+			wantStackTop: value.Nil,
+		},
+		"continue after capture in fornum": {
+			source: `
+				var closures: List[||: void] = []
+				fornum i := 1; i <= 3; i++
+					j := i
+					closures << -> println j
+					continue if i == 1
+					j += 100
+				end
+				for c in closures then c.()
+				nil
+			`,
+			wantStdout:   "1\n102\n103\n",
+			wantStackTop: value.Nil,
+		},
+		"labeled continue of an outer for in": {
+			source: `
+				var closures: List[||: void] = []
+				$outer: for i in [1, 2]
+					a := i
+					for j in [10, 20]
+						b := j
+						closures << -> println a + b
+						continue[outer] if j == 10 && i == 2
+						b += 100
+					end
+				end
+				for c in closures then c.()
+				nil
+			`,
+			wantStdout:   "111\n121\n12\n",
+			wantStackTop: value.Nil,
+		},
+		"continue through finally": {
+			source: `
+				var closures: List[||: void] = []
+				i := 0
+				while i < 3
+					i++
+					j := i
+					closures << -> println j
+					do
+						continue if i == 1
+					finally
+						i += 0
+					end
+					j += 100
+				end
+				for c in closures then c.()
+				nil
+			`,
+			wantStdout:   "1\n102\n103\n",
+			wantStackTop: value.Nil,
+		},
+		"break through finally": {
+			source: `
+				var closures: List[||: void] = []
+				i := 0
+				while i < 3
+					i++
+					j := i
+					closures << -> println j
+					do
+						break if i == 2
+					finally
+						i += 0
+					end
+					j += 100
+				end
+				x := 77
+				y := 88
+				for c in closures then c.()
+				println x + y
+				nil
+			`,
+			wantStdout:   "101\n2\n165\n",
+			wantStackTop: value.Nil,
+		},
+	}
+
+	for name, tc := range tests {
+		t.Run(name, func(t *testing.T) {
+			vmSourceTest(tc, t)
+		})
+	}
+}
